@@ -249,6 +249,43 @@ theorem getAllDependencies_mem (df : List (Str × List Str)) (name x : Str) :
   unfold getAllDependencies
   rw [mem_sortedSet, mem_flatMap]
 
+/-! ### cached compiler checks: a reconfigure gives the verdict a fresh configuration gives -/
+
+/-- the invariant a pickling function must preserve: if the verdict only reads the projection `π` of a
+result and pickling keeps `π`, then the cached answer on reconfigure is the fresh answer -/
+theorem pickle_roundtrip_preserves_verdict {K P} [DecidableEq K] (π : CheckResult → P)
+    (v : CheckResult → Bool) (hv : ∀ r r', π r = π r' → v r = v r')
+    (pickle : CheckResult → CheckResult) (hp : ∀ r, π (pickle r) = π r) (run : K → CheckResult) (k : K) :
+    reconfigureVerdict v pickle run k = freshVerdict v run k := by
+  simp only [reconfigureVerdict, freshVerdict, cachedCompile, saveLoad, lookup_nil, map_cons, map_nil,
+    lookup_cons_self]
+  exact hv _ _ (hp _)
+
+/-- the code: results are pickled whole (no `__getstate__`), so every verdict function is preserved -/
+theorem cached_verdict_eq_fresh {K} [DecidableEq K] (v : CheckResult → Bool) (run : K → CheckResult) (k : K) :
+    reconfigureVerdict v id run k = freshVerdict v run k :=
+  pickle_roundtrip_preserves_verdict id v (fun _ _ h => congrArg v h) id (fun _ => rfl) run k
+
+/-- dropping stderr is fine for verdicts that read the exit status only … -/
+theorem dropStderr_preserves_returncode_verdicts {K} [DecidableEq K] (f : Int → Bool)
+    (run : K → CheckResult) (k : K) :
+    reconfigureVerdict (fun r => f r.returncode) dropStderr run k = freshVerdict (fun r => f r.returncode) run k :=
+  pickle_roundtrip_preserves_verdict (fun r => r.returncode) _ (fun _ _ h => by simp only [h]) dropStderr
+    (fun _ => rfl) run k
+
+/-- … but not for `has_arguments` of GNU-like compilers: -/
+def dropStderr_preserves_gnuHasArguments_full : Prop :=
+  ∀ (langIsC : Bool) (run : Unit → CheckResult),
+    reconfigureVerdict (gnuHasArguments langIsC) dropStderr run () = freshVerdict (gnuHasArguments langIsC) run ()
+
+/-- gcc, language C, `-Wnon-virtual-dtor`: exit status 0 and a note on stderr.  Fresh: unsupported.
+Reconfigured with the stderr-less cached result: supported — build.ninja gains the flag -/
+theorem dropStderr_preserves_gnuHasArguments_counterexample : ¬ dropStderr_preserves_gnuHasArguments_full := by
+  intro h
+  have := h true (fun _ => ⟨0, [], "cc1: warning: command-line option '-Wnon-virtual-dtor' is valid for C++/ObjC++ but not for C".toList⟩)
+  revert this
+  decide
+
 /-! ### unchanged outputs are not disturbed -/
 
 /-- `replace_if_different(dst, tmp)` with equal contents: `dst` keeps content, mode **and mtime**, the
